@@ -197,17 +197,20 @@ end
 mutual
 theorem acctran_rel (C : Coding k1 k2 enc dec) : ∀ (a1 a2 : A) (q1 q2 : Option Vec), RelOpt k2 enc dec q1 q2 →
     RelA k2 enc dec a1 a2 → RelA k2 enc dec (acctran k1 q1 a1) (acctran k2 q2 a2)
-  | .node s1 ks1, .node s2 ks2, none, none, _, h => by
+  | .node s1 [], .node s2 [], _, _, _, h => by simpa [acctran, RelA, RelAL] using h
+  | .node s1 [], .node s2 (_ :: _), _, _, _, h => by simp [RelA, RelAL] at h
+  | .node s1 (_ :: _), .node s2 [], _, _, _, h => by simp [RelA, RelAL] at h
+  | .node s1 (c1 :: r1), .node s2 (c2 :: r2), none, none, _, h => by
     simp only [RelA] at h
     simp only [acctran, RelA]
-    exact ⟨h.1, acctranL_rel C ks1 ks2 _ _ h.1 h.2⟩
-  | .node s1 ks1, .node s2 ks2, some u1, some u2, hq, h => by
+    exact ⟨h.1, acctranL_rel C (c1 :: r1) (c2 :: r2) _ _ h.1 h.2⟩
+  | .node s1 (c1 :: r1), .node s2 (c2 :: r2), some u1, some u2, hq, h => by
     simp only [RelA] at h
     have hs' := rel_inter C h.1 hq
     simp only [acctran, RelA]
-    exact ⟨hs', acctranL_rel C ks1 ks2 _ _ hs' h.2⟩
-  | .node s1 ks1, .node s2 ks2, none, some _, hq, _ => by simp [RelOpt] at hq
-  | .node s1 ks1, .node s2 ks2, some _, none, hq, _ => by simp [RelOpt] at hq
+    exact ⟨hs', acctranL_rel C (c1 :: r1) (c2 :: r2) _ _ hs' h.2⟩
+  | .node s1 (c1 :: r1), .node s2 (c2 :: r2), none, some _, hq, _ => by simp [RelOpt] at hq
+  | .node s1 (c1 :: r1), .node s2 (c2 :: r2), some _, none, hq, _ => by simp [RelOpt] at hq
 theorem acctranL_rel (C : Coding k1 k2 enc dec) : ∀ (l1 l2 : List A) (q1 q2 : Option Vec), RelOpt k2 enc dec q1 q2 →
     RelAL k2 enc dec l1 l2 → RelAL k2 enc dec (acctranL k1 q1 l1) (acctranL k2 q2 l2)
   | [], [], _, _, _, _ => by simp [acctranL, RelAL]
